@@ -25,6 +25,9 @@ pub enum FaultOp {
     NextKeyRand { i: usize, seed: u64 },
     NextKeyFrom { i: usize, j: usize },
     NextKeyAlg { i: usize },
+    /// the algorithm tag of the next key (or of the external key) set to a value outside the
+    /// enumeration
+    KeyAlgTag { i: usize, v: i32, ext: bool },
     NextKeyReenc { i: usize },
     SigFlip { i: usize, bit: usize },
     SigTrunc { i: usize },
@@ -45,6 +48,9 @@ pub enum FaultOp {
     ProofKind,
     ProofNone,
     ProofRandSecret { seed: u64 },
+    /// the proof secret in another shape that names the same key: 0 followed by the public key
+    /// (the 64-byte keypair form), 1 with a leading zero byte, 2 with a trailing zero byte
+    ProofReshape { how: u8 },
     /// the adversary seals the token itself with the proof secret it sees, then edits
     SealTwin,
     /// append a block signed with the visible proof secret onto a sealed token's blocks
@@ -79,6 +85,7 @@ impl FaultOp {
             FaultOp::NextKeyRand { .. } => "nk.rand",
             FaultOp::NextKeyFrom { .. } => "nk.from",
             FaultOp::NextKeyAlg { .. } => "nk.alg",
+            FaultOp::KeyAlgTag { .. } => "nk.algtag",
             FaultOp::NextKeyReenc { .. } => "nk.reenc",
             FaultOp::SigFlip { .. } => "sig.flip",
             FaultOp::SigTrunc { .. } => "sig.trunc",
@@ -99,6 +106,7 @@ impl FaultOp {
             FaultOp::ProofKind => "proof.kind",
             FaultOp::ProofNone => "proof.none",
             FaultOp::ProofRandSecret { .. } => "proof.rand",
+            FaultOp::ProofReshape { .. } => "proof.reshape",
             FaultOp::SealTwin => "seal.twin",
             FaultOp::AppendWithRandKey { .. } => "blk.append_forged",
             FaultOp::TpForge { .. } => "tp.layout_forged",
@@ -216,10 +224,29 @@ fn der_variant(sig: &[u8], variant: u8) -> Option<Vec<u8>> {
             v[1] = v[1].wrapping_add(1);
             Some(v)
         }
-        _ => {
+        3 => {
             // trailing garbage after the sequence
             v.push(0);
             Some(v)
+        }
+        _ => {
+            // the same (r, s) in the fixed-size encoding r || s (what WebCrypto emits)
+            let lr = *sig.get(3)? as usize;
+            let r = sig.get(4..4 + lr)?;
+            let ls = *sig.get(4 + lr + 1)? as usize;
+            let s_ = sig.get(4 + lr + 2..4 + lr + 2 + ls)?;
+            let fixed = |x: &[u8]| -> Option<Vec<u8>> {
+                let x: Vec<u8> = x.iter().copied().skip_while(|b| *b == 0).collect();
+                if x.len() > 32 {
+                    return None;
+                }
+                let mut out = vec![0u8; 32 - x.len()];
+                out.extend_from_slice(&x);
+                Some(out)
+            };
+            let mut out = fixed(r)?;
+            out.extend(fixed(s_)?);
+            Some(out)
         }
     }
 }
@@ -378,6 +405,15 @@ pub fn apply(op: &FaultOp, victim: &[u8], aux: Option<&[u8]>) -> Option<Vec<u8>>
             let b = bs.get_mut(*i)?;
             b.next_key.algorithm = 1 - b.next_key.algorithm.clamp(0, 1);
         }
+        FaultOp::KeyAlgTag { i, v, ext } => {
+            let mut bs = blocks_mut(&mut t);
+            let b = bs.get_mut(*i)?;
+            if *ext {
+                b.external_signature.as_mut()?.public_key.algorithm = *v;
+            } else {
+                b.next_key.algorithm = *v;
+            }
+        }
         FaultOp::NextKeyReenc { i } => {
             let mut bs = blocks_mut(&mut t);
             let b = bs.get_mut(*i)?;
@@ -499,6 +535,17 @@ pub fn apply(op: &FaultOp, victim: &[u8], aux: Option<&[u8]>) -> Option<Vec<u8>>
             t.proof.content = Some(schema::proof::Content::NextSecret(
                 KeySpec { alg, seed: *seed }.secret(),
             ));
+        }
+        FaultOp::ProofReshape { how } => {
+            let last_key = t.blocks.last().unwrap_or(&t.authority).next_key.key.clone();
+            match t.proof.content.as_mut()? {
+                schema::proof::Content::NextSecret(s) => match how {
+                    0 => s.extend_from_slice(&last_key),
+                    1 => s.insert(0, 0),
+                    _ => s.push(0),
+                },
+                _ => return None,
+            }
         }
         FaultOp::SealTwin => {
             match t.proof.content.as_mut()? {
@@ -628,6 +675,9 @@ pub fn table(n: usize, m: Option<usize>, victim_len: usize, seed: u64, n_bytes: 
         v.push(FaultOp::BlockDup { i });
         v.push(FaultOp::NextKeyRand { i, seed: rng.next() >> 8 });
         v.push(FaultOp::NextKeyAlg { i });
+        v.push(FaultOp::KeyAlgTag { i, v: 2, ext: false });
+        v.push(FaultOp::KeyAlgTag { i, v: -1, ext: false });
+        v.push(FaultOp::KeyAlgTag { i, v: 7, ext: true });
         v.push(FaultOp::NextKeyReenc { i });
         v.push(FaultOp::SigFlip { i, bit: rng.below(512) });
         v.push(FaultOp::SigFlip { i, bit: 511 });
@@ -635,7 +685,7 @@ pub fn table(n: usize, m: Option<usize>, victim_len: usize, seed: u64, n_bytes: 
         v.push(FaultOp::SigExt { i });
         v.push(FaultOp::SigZero { i });
         v.push(FaultOp::SigTwin { i });
-        for variant in 0..4 {
+        for variant in 0..5 {
             v.push(FaultOp::SigDer { i, variant });
         }
         for ver in [None, Some(0), Some(1), Some(2), Some(7)] {
@@ -670,6 +720,9 @@ pub fn table(n: usize, m: Option<usize>, victim_len: usize, seed: u64, n_bytes: 
     v.push(FaultOp::ProofKind);
     v.push(FaultOp::ProofNone);
     v.push(FaultOp::ProofRandSecret { seed: rng.next() >> 8 });
+    for how in 0..3 {
+        v.push(FaultOp::ProofReshape { how });
+    }
     v.push(FaultOp::SealTwin);
     v.push(FaultOp::AppendWithRandKey { seed: rng.next() >> 8 });
     for (block_version, ext_layout) in [(0u32, 0u8), (0, 1), (0, 2), (1, 0), (1, 1)] {
